@@ -24,10 +24,10 @@ type Defect struct {
 
 // defect kinds per version family
 var defectKinds = map[string][]string{
-	"2.0": {"illegal-value", "swap-adjacent", "move", "dup-in-place", "dup-distant", "unknown-insert", "unknown-substitute", "cut"},
+	"2.0": {"illegal-value", "swap-adjacent", "move", "dup-in-place", "dup-distant", "unknown-insert", "unknown-substitute", "cut", "remove-middle"},
 	"3.0": {"header-remove", "header-other", "header-byte", "header-lower", "header-truncate", "header-prefix", "illegal-value", "remove-base", "duplicate", "unknown-insert", "unknown-substitute-optional"},
 	"3.1": {"header-remove", "header-other", "header-byte", "header-lower", "header-truncate", "header-prefix", "illegal-value", "remove-base", "duplicate", "unknown-insert", "unknown-substitute-optional"},
-	"4.0": {"header-remove", "header-other", "header-byte", "header-lower", "header-truncate", "header-prefix", "illegal-value", "swap-adjacent", "move", "dup-in-place", "dup-distant", "unknown-insert", "unknown-substitute", "cut"},
+	"4.0": {"header-remove", "header-other", "header-byte", "header-lower", "header-truncate", "header-prefix", "illegal-value", "swap-adjacent", "move", "dup-in-place", "dup-distant", "unknown-insert", "unknown-substitute", "cut", "remove-middle"},
 }
 
 func elemsOf(b gen.Valid) (string, []string) {
@@ -167,6 +167,11 @@ func (d Defect) build() (s string, want string, ok bool) {
 			return "", "", false
 		}
 		return join(insertAt(el, d.Pos2, el[d.Pos])), "order", true
+	case "remove-middle": // v2/v4: an element other than the last is removed, so the following metric is misplaced
+		if !in(d.Pos, 0, n-1) {
+			return "", "", false
+		}
+		return join(removeAt(el, d.Pos)), "order", true
 	case "cut": // keep the first Pos elements
 		if v.Name == "4.0" {
 			if !in(d.Pos, 1, 11) {
@@ -382,7 +387,7 @@ func drawDefect(rt *rapid.T) Defect {
 			d.Pos = idx[rapid.IntRange(0, len(idx)-1).Draw(rt, "pos")]
 			d.Arg = gen.BStr(unknownAbv())
 		}
-	case "swap-adjacent":
+	case "swap-adjacent", "remove-middle":
 		d.Pos = pos(0, n-1, "pos")
 	case "move":
 		d.Pos = pos(0, n, "pos")
@@ -542,7 +547,7 @@ func TestC18(t *testing.T) {
 	missing := 0
 	for _, v := range spec.Versions {
 		for _, k := range defectKinds[v.Name] {
-			if strings.HasPrefix(k, "header") || k == "cut" || k == "unknown-insert" || k == "dup-distant" || k == "swap-adjacent" || k == "move" {
+			if strings.HasPrefix(k, "header") || k == "cut" || k == "unknown-insert" || k == "dup-distant" || k == "swap-adjacent" || k == "move" || k == "remove-middle" {
 				continue
 			}
 			for _, m := range v.Metrics {
